@@ -131,14 +131,21 @@ def _gate(h, k, model_cls):
     from pyvc.theory_np import py_max
 
     spec_max = py_max(*mins) if k > 1 else mins[0]
-    h.ensures(f"max_over_levels[k={k}]", mx == spec_max)
+    nm_ = {NP: "nonparametric", GA: "gaussian"}.get(model_cls)
+
+    def rp(ev):
+        if nm_ is None:
+            raise Exception("no end-to-end replay for this estimator")
+        return {"target": "verif_replays:gate_replay", "args": [[float(ev(a_)) for a_ in alphas], int(ev(n))], "kwargs": {"pi_method": nm_}, "check": "result['ok']"}
+
+    h.ensures(f"max_over_levels[k={k}]", mx == spec_max, replay=rp)
     kind, env2 = h.slice(f"{CL}.get_estimates", first_assign="n_reporting_expected_units", until_raise="ModelNotEnoughSubunitsException", env={"self": self, "minimum_reporting_units_max": mx, "reporting_units": _Frame0(n), "unexpected_units": _Opaque(), "nonreporting_units": _Frame0(h.int("n_nonrep")), "non_modeled_units": []})
     too_few = n < spec_max
     if kind == "raise":
         h.ensures(f"raises_dedicated_error[k={k}]", env2.clsname == "ModelNotEnoughSubunitsException")
-        h.ensures(f"raises_only_if_too_few[k={k}]", too_few)
+        h.ensures(f"raises_only_if_too_few[k={k}]", too_few, replay=rp)
     else:
-        h.ensures(f"passes_only_if_enough[k={k}]", ~too_few if isinstance(too_few, V) else not too_few)
+        h.ensures(f"passes_only_if_enough[k={k}]", ~too_few if isinstance(too_few, V) else not too_few, replay=rp)
 
 
 class _Frame0:
